@@ -1,6 +1,5 @@
 # -*- coding: utf-8 -*-
 
-import copy
 import json
 from typing import (
     Any,
@@ -14,6 +13,7 @@ from typing import (
     Union,
 )
 
+from .._utils import copy_containers
 from ..exc import (
     CoercionError,
     GraphQLLocatedError,
@@ -230,31 +230,7 @@ class ResolutionContext:
         # all the parents of a list, by aliases using the same variable and,
         # for subscriptions, by all events; resolvers are free to edit what
         # they receive.
-        return _copy_values(av) if av else {}
-
-
-def _copy_values(values: Any) -> Any:
-    # Dictionaries and lists (the containers coercion builds) are rebuilt
-    # iteratively (variable values can be nested deeper than the recursion limit
-    # allows ``copy.deepcopy`` to go); leaf values are handed over as they are:
-    # enum members map to their declared internal value, not to a copy of it.
-    memo = {}  # type: Dict[int, Any]
-    root = [None]  # type: List[Any]
-    stack = [(values, root, 0)]  # type: List[Tuple[Any, Any, Any]]
-    while stack:
-        source, target, key = stack.pop()
-        if type(source) in (dict, list):
-            if id(source) in memo:
-                target[key] = memo[id(source)]
-            elif type(source) is dict:
-                target[key] = memo[id(source)] = copied = dict.fromkeys(source)
-                stack.extend((v, copied, k) for k, v in source.items())
-            else:
-                target[key] = memo[id(source)] = copied = [None] * len(source)
-                stack.extend((v, copied, i) for i, v in enumerate(source))
-        else:
-            target[key] = source
-    return root[0]
+        return copy_containers(av) if av else {}
 
 
 class ResolveInfo:
